@@ -82,7 +82,7 @@ def uniqueProtoclusters (cross : Bool) (L : Int) (enum : List Proto) : List Prot
 def protoLeOld (a b : Proto) : Bool := decide (a.start < b.start ∨ (a.start = b.start ∧ -a.len ≤ -b.len))
 def uniqueProtoclustersOld (enum : List Proto) : List Proto := sortBy protoLeOld enum
 
-/-- between D54 and D61 the key was `(start, −len, product)` without the core -/
+/-- between D54 and D64 the key was `(start, −len, product)` without the core -/
 def protoLeNoCore (a b : Proto) : Bool :=
   decide (a.start < b.start ∨ (a.start = b.start ∧ (-a.len < -b.len ∨ (-a.len = -b.len ∧ a.product ≤ b.product))))
 def uniqueProtoclustersNoCore (enum : List Proto) : List Proto := sortBy protoLeNoCore enum
